@@ -70,8 +70,8 @@ def updEvents (t : Task) : List Event :=
   (if emitTitle t then [Event.title t.id t.title (some (pickTime t.lastTitle t.updatedAt))] else [])
   ++ (if emitBody t then [Event.body t.id t.body (some (pickTime t.lastBody t.updatedAt))] else [])
   ++ (if emitEpic t then [Event.epic t.id t.epicId (some (pickTime t.lastEpic t.updatedAt))] else [])
-  ++ (if emitClaim t then [Event.claim t.id t.claimedBy (some (pickTime t.lastClaim t.updatedAt))] else [])
   ++ (if emitState t then [Event.state t.id t.st (some (pickTime t.lastState t.updatedAt))] else [])
+  ++ (if emitClaim t then [Event.claim t.id t.claimedBy (some (pickTime t.lastClaim t.updatedAt))] else [])
   ++ t.results.reverse.map (resEv t.id)
 
 theorem compactTask_eq (t : Task) :
@@ -97,7 +97,7 @@ def rebuild (t : Task) : Task := (updEvents t).foldl stepTask (created t)
 def rebuildX (t : Task) : Task :=
   { id := t.id, uuid := t.uuid, epicId := if emitEpic t then t.epicId else t.cEpic, isEpic := t.isEpic,
     st := t.st, title := t.title, body := t.body,
-    claimedBy := if emitState t && t.st.clearsClaim then "" else t.claimedBy,
+    claimedBy := t.claimedBy,
     createdAt := t.createdAt,
     updatedAt := (t.results.reverse.map (·.time)).foldl maxTime
       (maxTime (maxTime (maxTime (maxTime t.createdAt (optT (emitTitle t) (pickTime t.lastTitle t.updatedAt)))
